@@ -7,7 +7,7 @@
   line endings before it, display width since the last one with tabs advancing
   to the next stop), for every line-ending style, tab width and character
   widths.  Unbounded in the text.
-  Part 2 (lexer): see `C03_lexer_*` below once the lexer invariant is in.
+  Part 2 (lexer, builders anywhere; `measureText` canonical): `TephraProps/C03Lexer.lean`.
 -/
 import TephraProofs.Canon
 
